@@ -298,6 +298,12 @@ gensalt_sunmd5_rn (unsigned long count,
   count += ((unsigned long)rbytes[0]) << 8;
   count += ((unsigned long)rbytes[1]) << 0;
 
+  /* crypt_sunmd5_rn adds the 4096 basic rounds to this number in
+     32-bit arithmetic; never emit a value for which that sum would
+     wrap around to a tiny round count.  */
+  if (count > SUNMD5_MAX_ROUNDS - 4096)
+    count = SUNMD5_MAX_ROUNDS - 4096;
+
   assert (count != 0);
 
   size_t written = (size_t) snprintf ((char *)output, o_size,
